@@ -6,6 +6,7 @@ import (
 	"os/exec"
 	"path/filepath"
 	"sort"
+	"strings"
 	"time"
 
 	"github.com/wokdav/gopki/generator/db"
@@ -148,4 +149,43 @@ func RunCLIArgs(w *simfs.World, flagArgs []string, stdin string) (CLIResult, err
 		w.PutAt(c.p, c.d, tick)
 	}
 	return res, nil
+}
+
+// RunCLILinkedArtifacts is RunCLI on a directory where every existing *.pem file is kept in a
+// separate store directory and only linked into its place (the links are older than every file).
+// gopki reads, stats and writes through the links, so the outcome must be the same as on plain
+// files; the world is handed back in the plain layout.
+func RunCLILinkedArtifacts(w *simfs.World, strat db.UpdateStrategy, stdin string) (CLIResult, error) {
+	const store = "linkstore/"
+	if w.Symlinks != nil {
+		return RunCLI(w, strat, stdin)
+	}
+	w.Symlinks = map[string]string{}
+	paths := func() []string {
+		var l []string
+		for p := range w.Files {
+			l = append(l, p)
+		}
+		sort.Strings(l)
+		return l
+	}
+	for _, p := range paths() {
+		if f := w.Files[p]; strings.HasSuffix(p, ".pem") {
+			w.Symlinks[p] = store + p
+			w.PutAt(store+p, f.Data, f.Tick)
+			w.Remove(p)
+		}
+	}
+	res, err := RunCLI(w, strat, stdin)
+	for _, p := range paths() {
+		if f := w.Files[p]; strings.HasPrefix(p, store) {
+			orig := strings.TrimPrefix(p, store)
+			if _, replaced := w.Files[orig]; !replaced { // a regular file put in place of the link wins
+				w.PutAt(orig, f.Data, f.Tick)
+			}
+			w.Remove(p)
+		}
+	}
+	w.Symlinks = nil
+	return res, err
 }
